@@ -84,6 +84,20 @@ CHECKS = {
         note="Operations that raise are did-not-return; NPlatePerCellLine judged on samples that still have unobserved experiments.",
         technique="post-condition monitors + small reference algorithms (greedy merge, optimal size)",
     ),
+    "C05": dict(
+        cat="exploration",
+        text="Every plate score returned by the homoscedastic, heteroscedastic, vectorized and GaussianDBALScorer entry points (stub thetas with prescribed per-row means/variances and real samples) is compared at 1e-9(1+|ref|) with a scalar fsum evaluation of the documented estimator, and re-computed alone vs together, with shuffled experiments, shuffled plates, every max_chunk and relabelled thetas.",
+        ref="4/C05",
+        note="n_thetas<=32 so all triples are enumerated; means bounded; reference is an independent loop implementation written from the statement.",
+        technique="differential against a scalar reference + metamorphic monitors on the real kernel",
+    ),
+    "C06": dict(
+        cat="exploration",
+        text="A recording Scorer logs the ids and row selections handed to it by the real score_chunk for every chunk index and returns prescribed scores (finite, -inf, ties); exactly-once coverage and batch conditioning are decided by set algebra; chunk files are saved, loaded and combined in random orders and the real select_next_plate (recording / real k-per-sample policy) is checked for minimality among allowed plates; both CLIs run in-process on the same files.",
+        ref="4/C06",
+        note="Batches are subsets of unobserved plates; NaN scores excluded; screens up to 10 plates.",
+        technique="recording scorer/policy proxies + reference selection model over saved chunk files",
+    ),
 }
 
 NOT_BUILT_REASON = "check not built yet in this revision (planned, see DESIGN.md section 4)"
